@@ -3,7 +3,7 @@
    linear work — is carried by the sanitizer / guard-page / valgrind / callgrind runs of the C06 check on the real code. *)
 From Coq Require Import List NArith ZArith Bool.
 From Coq Require Import Strings.Byte.
-Require Import Bytes Codes Local Local6531 Domain Ip Special Email Api ApiProofs TldProofs EnumTie SafetyProofs LocalA DomainA Local6531A.
+Require Import Bytes Codes Local Local6531 Domain Ip Special Email Api ApiProofs TldProofs EnumTie SafetyProofs LocalA DomainA Local6531A IpA.
 Require Gen.GenEnums.
 Import ListNotations.
 
@@ -53,6 +53,28 @@ Theorem C06_utf8_scanner_access_model :
   forall g s, local6531A g s (length s) = RetA (local6531 g s).
 Proof. exact local6531A_reads_below_end. Qed.
 Print Assumptions C06_utf8_scanner_access_model.
+(* is_ipv4 / is_ipv6 / is_ipaddr called on any part of a C string (st = offset of the start pointer, so that the
+   recursive call is_ipv4 (cp - len, end) is covered): cp[1], cp++ then *cp, cp - len, cp += strspn (...),
+   start[strspn (start, "0.")] and strchr never leave [first byte, terminator]; no underflow; the functional model's answer.
+   For is_ipv6 the byte at the end pointer must not be a hexadecimal digit (it is ']' or the terminator in every call the
+   library makes), otherwise strspn runs past the end pointer and the functional model, not the access model, is off. *)
+Theorem C06_ipv4_access_model :
+  forall buf st s rest, skipn st buf = s ++ rest ++ [NUL] ->
+  ipv4A buf st (st + length s) = retb (ipv4 s rest).
+Proof. exact ipv4A_refines. Qed.
+Print Assumptions C06_ipv4_access_model.
+Theorem C06_ipv6_access_model :
+  forall buf st s rest, skipn st buf = s ++ rest ++ [NUL] ->
+  match rest with [] => True | n :: _ => is_hex (code n) = false end ->
+  ipv6A buf st (st + length s) = retb (ipv6 s rest).
+Proof. exact ipv6A_refines. Qed.
+Print Assumptions C06_ipv6_access_model.
+Theorem C06_ipaddr_access_model :
+  forall buf st s rest, skipn st buf = s ++ rest ++ [NUL] ->
+  match rest with [] => True | n :: _ => is_hex (code n) = false end ->
+  ipaddrA buf st (st + length s) = retb (ipaddr s rest).
+Proof. exact ipaddrA_refines. Qed.
+Print Assumptions C06_ipaddr_access_model.
 
 (* look-ahead discipline: whatever lies beyond the end pointer can influence a scanner only through the byte at [end] *)
 Theorem C06_local_lookahead :
